@@ -30,6 +30,12 @@ func init() {
 	genql.RegisterFunction("vbg", func(q *genql.Query, cur genql.Map, o *genql.FunctionOptions, args []any) (any, error) {
 		bgStarted.Add(1)
 		defer bgFinished.Add(1)
+		if fault.syncOnly.Load() {
+			if len(args) == 0 {
+				return true, nil
+			}
+			return args[0], nil
+		}
 		return vfail(q, cur, o, args)
 	})
 	genql.RegisterImmediateFunction("vimm", func(q *genql.Query, cur genql.Map, o *genql.FunctionOptions, args []any) (any, error) {
